@@ -351,7 +351,16 @@ class SamplerCore:
                 if dt.kind in "US":
                     # Strings need to be object arrays or we risk truncation
                     dt = np.dtype("object")
-            blob = np.array(blob, dtype=dt)
+            subdtype = np.dtype(dt).subdtype
+            if subdtype is not None:
+                # Array-valued blobs, e.g. blobs_dtype=(float, n): NumPy >= 2 refuses to build
+                # these from the per-item tuples directly, so stack them explicitly
+                base, sub_shape = subdtype
+                blob = np.array(
+                    [np.asarray(b, dtype=base).reshape((-1,) + sub_shape) for b in blob]
+                )
+            else:
+                blob = np.array(blob, dtype=dt)
 
             # Deal with single blobs properly
             shape = blob.shape[1:]
